@@ -30,7 +30,7 @@ ASSUMPTIONS = [
 SHARDS = {"quick": 8, "thorough": 16}
 TIMEOUT = {"quick": 600, "thorough": 3600}
 MIN_CASES = {"quick": 50_000, "thorough": 500_000}
-REQUIRED_COUNTERS = ["roundtrip_checked", "totality_checked", "filter_checked", "ble_reassembly_checked", "ble_reassembly_empty_last_fragment", "parse_errors_seen"]
+REQUIRED_COUNTERS = ["roundtrip_checked", "totality_checked", "filter_checked", "ble_reassembly_checked", "ble_reassembly_empty_last_fragment", "ble_reassembly_via_state_machine_driver", "parse_errors_seen"]
 
 BOUNDARY = [0, 1, 2, 254, 255, 256, 257, 509, 510, 511, 765, 766]
 ALPHABET = [0, 1, 2, 3, 6, 7, 254, 255]
@@ -350,8 +350,21 @@ def run_ble_reassembly(ctx, response_items, pieces: int, negotiated: int, reques
     client.endpoints[handle] = GattEndpointSim(responder)
     ctx.case("D", payload, pieces, negotiated, empty_last, sample={"part": "ble-reassembly", "response_types": [(t, len(v)) for t, v in plain], "pieces": n, "fragment_size": negotiated, "empty_last_fragment": empty_last}, kind="D")
     ctx.count("ble_reassembly_checked")
+    via_driver = (len(payload) + pieces + negotiated) % 2 == 1
     try:
-        got = asyncio.run(ble_client._pairing_char_write(client, handle, 11, [(t, bytes(v)) for t, v in request_items]))
+        if via_driver:
+            # the way every BLE pairing step really runs: drive_pairing_state_machine with a state machine that names the
+            # item types it expects (FragmentData / FragmentLast are never among them)
+            from aiohomekit.model.characteristics import CharacteristicsTypes
+
+            def machine():
+                resp = yield [(t, bytes(v)) for t, v in request_items], sorted({t for t, _ in plain} | {6, 7})
+                return resp
+
+            ctx.count("ble_reassembly_via_state_machine_driver")
+            got = asyncio.run(ble_client.drive_pairing_state_machine(client, CharacteristicsTypes.PAIR_SETUP, machine()))
+        else:
+            got = asyncio.run(ble_client._pairing_char_write(client, handle, 11, [(t, bytes(v)) for t, v in request_items]))
     except Exception as ex:
         ctx.violation(f"ble-reassembly-raises-{type(ex).__name__}", f"_pairing_char_write raised {ex!r} with {n} pieces", replay)
         return
